@@ -128,6 +128,16 @@ impl<Key, Value> Store<Key, Value>
         None
     }
 
+    /// Deletes the key only if it is still stored under the given `key_id`.
+    /// Used while evicting an expired key: the key may have been deleted and put again (under a new id) in the meantime.
+    pub(crate) fn delete_if_key_id_matches(&self, key: &Key, key_id: &KeyId) -> Option<KeyIdExpiry> {
+        if let Some(pair) = self.store.remove_if(key, |_, stored_value| stored_value.key_id() == *key_id) {
+            self.stats_counter.delete_key();
+            return Some(KeyIdExpiry(pair.1.key_id(), pair.1.expire_after()));
+        }
+        None
+    }
+
     pub(crate) fn mark_deleted(&self, key: &Key) {
         if let Some(mut pair) = self.store.get_mut(key) {
             let stored_value = pair.value_mut();
